@@ -155,3 +155,181 @@ pub fn run_c01(out: &mut Out, seed: u64, thorough: bool) {
         }
     }
 }
+
+// ---------------------------------------------------------------------------------------------
+// C04: key interrupt at every clock cycle of generated programs.
+
+const CNT: u8 = 0x90;
+
+/// Main program + register-preserving ISR that bumps RAM[CNT]. Returns (image, address of the final spin loop).
+fn c04_program(rng: &mut Rng, with_di: bool) -> (Vec<u8>, u8) {
+    let mut p: Vec<u8> = vec![0x20, 0x0A]; // JR MAIN (MAIN at 0x0C)
+    // ISR at 2
+    p.extend(&[0x10, 0xFF, CNT, 0x10, 0x44, 0xF0, 0x1F, CNT, 0x14, 0x2C]);
+    assert_eq!(p.len(), 0x0C);
+    // MAIN
+    p.extend(&[0xFB, 0xE8, 0x40]); // LDSP 0xE8
+    let enable_at = rng.below(3);
+    let mut body: Vec<Vec<u8>> = vec![];
+    let n = 6 + rng.below(10);
+    for _ in 0..n {
+        let r = rng.byte() % 3;
+        let r2 = rng.byte() % 3;
+        let ins: Vec<u8> = match rng.below(14) {
+            0 => vec![0xFB, rng.byte(), 0x10 + r],                   // LD r, const
+            1 => vec![0x60 + (r2 << 2) + r],                         // ADD
+            2 => vec![0x80 + (r2 << 2) + r],                         // SUB
+            3 => vec![0xB0 + (r2 << 2) + r],                         // MUL
+            4 => vec![0xC0 + (r2 << 2) + r],                         // DIV
+            5 => vec![0x10 + r, 0x14 + r2],                          // PUSH r ; POP r2
+            6 => vec![0xF0 + r, 0x1F, 0x40 + rng.byte() % 0x40],     // ST (ram), r
+            7 => vec![0xFF, 0x40 + rng.byte() % 0x40, 0x10 + r],     // LD r, (ram)
+            8 => vec![0xF0 + r, 0x1F, 0xFE + rng.byte() % 2],        // ST (FE/FF), r
+            9 => vec![0x44 + r],                                     // INC
+            10 => vec![0x18, 0x1C],                                  // PUSHF ; POPF
+            11 if with_di => vec![0x0C, 0x44 + r, 0x08],             // DI ; INC ; EI
+            12 => vec![0xF0 + r, 0x20 + r2],                         // CMP r2, r
+            _ => vec![0x30 + r],                                     // COM
+        };
+        body.push(ins);
+    }
+    for (i, ins) in body.iter().enumerate() {
+        if i as u64 == enable_at {
+            p.extend(&[0xFB, 0x01, 0x5F, 0xF9]); // BITS (0xF9), 1  -> MICR key enable
+            p.push(0x08); // EI
+        }
+        p.extend(ins);
+    }
+    // a subroutine call: CALL SUB ; spin ; SUB: INC R1 ; RET
+    let call_at = p.len();
+    p.extend(&[0x28, 0x00]);
+    let spin = p.len() as u8;
+    p.extend(&[0x20, 0xFE]);
+    let sub = p.len() as u8;
+    p.extend(&[0x45, 0x17]);
+    p[call_at + 1] = sub;
+    (p, spin)
+}
+
+fn arch_view(s: &Sess) -> String {
+    use emulator_2a_lib::machine::RegisterNumber as RN;
+    let r = s.m.registers();
+    let mem = s.m.bus().memory();
+    let mut ram: Vec<u8> = mem[..0xA0].to_vec();
+    ram[CNT as usize] = 0;
+    format!(
+        "{:?} fr={} sp={} pc={} out={},{} ram={}",
+        (r.get(RN::R0), r.get(RN::R1), r.get(RN::R2)), r.get(RN::R4), r.get(RN::R5), r.get(RN::R3),
+        s.m.bus().output_fe(), s.m.bus().output_ff(), crate::sess::fnv(&ram)
+    )
+}
+
+/// Run until the machine sits at a boundary with PC == spin and no interrupt in flight; cap on edges.
+fn settle(s: &mut Sess, spin: u8) {
+    use emulator_2a_lib::machine::RegisterNumber as RN;
+    for _ in 0..3000 {
+        let st = s.m.verif_state();
+        if s.m.is_instruction_done() && *s.m.registers().get(RN::R3) == spin && !st.pending_edge_interrupt {
+            return;
+        }
+        s.m.raw_mut().trigger_clock_edge();
+    }
+}
+
+fn is_end_word(s: &Sess) -> bool {
+    let sg = s.m.signals();
+    !sg.mac3() && !sg.mac2() && sg.mac1() && sg.mac0() && sg.na0()
+}
+
+pub fn run_c04(out: &mut Out, seed: u64, thorough: bool) {
+    use emulator_2a_lib::machine::RegisterNumber as RN;
+    let mut rng = Rng::new(seed);
+    let programs = if thorough { 200 } else { 8 };
+    for pi in 0..programs {
+        let (prog, spin) = c04_program(&mut rng, pi % 2 == 1);
+        let load = format!("load 16 255 {}", hexs(&prog));
+        if pi < 2 {
+            out.sample(load.clone());
+        }
+        // uninterrupted reference run
+        let mut base = Sess::new();
+        base.apply("new");
+        base.apply(&load);
+        let mut t_total = 0;
+        for _ in 0..4000 {
+            if base.m.is_instruction_done() && *base.m.registers().get(RN::R3) == spin {
+                break;
+            }
+            base.m.raw_mut().trigger_clock_edge();
+            t_total += 1;
+        }
+        let reference = arch_view(&base);
+        // every clock cycle as trigger point
+        let stride = 1;
+        let mut t = 0;
+        while t <= t_total + 6 {
+            let mut s = Sess::new();
+            run_line(out, &mut s, "new");
+            run_line(out, &mut s, &load);
+            run_line(out, &mut s, &format!("edges {}", t));
+            let micr = s.m.bus().is_key_edge_int_enabled();
+            run_line(out, &mut s, "irq");
+            run_line(out, &mut s, "d");
+            // first sampling point after the trigger: IEF as it will be when the end word is left
+            let mut ie_at_sample = false;
+            let mut k = 0;
+            {
+                let mut probe = Sess { m: s.m.clone(), last_edge: None, last_panicked: false };
+                while k < 3000 {
+                    let st = probe.m.verif_state();
+                    if is_end_word(&probe) && !st.pending_wait_for_memory && probe.m.state() == emulator_2a_lib::machine::State::Running {
+                        let fr = if st.pending_register_write == Some(4) { st.alu_output.0 } else { *probe.m.registers().get(RN::R4) };
+                        ie_at_sample = fr & 0x08 != 0;
+                        break;
+                    }
+                    probe.m.raw_mut().trigger_clock_edge();
+                    k += 1;
+                }
+            }
+            run_line(out, &mut s, &format!("edges {}", k));
+            run_line(out, &mut s, "edges 120");
+            run_line(out, &mut s, "d");
+            settle(&mut s, spin);
+            let count = s.m.bus().memory()[CNT as usize];
+            let transparent = arch_view(&s) == reference;
+            out.emit(
+                &format!("spec.c04 {} {}", micr as u8, ie_at_sample as u8),
+                &format!("count={} transparent={}", count, transparent as u8),
+            );
+            out.distinct_case(&format!("{} {}", pi, t));
+            out.count(if micr && ie_at_sample { "taken" } else if micr { "dropped" } else { "disabled" });
+            t += stride;
+        }
+        // two triggers at pairs of cycles in a window
+        let window = if thorough { 40 } else { 12 };
+        let start = t_total / 2;
+        for a in 0..window {
+            for b in (a + 1)..window {
+                let mut s = Sess::new();
+                s.apply("new");
+                s.apply(&load);
+                for _ in 0..(start + a) {
+                    s.m.raw_mut().trigger_clock_edge();
+                }
+                s.m.trigger_key_interrupt();
+                for _ in 0..(b - a) {
+                    s.m.raw_mut().trigger_clock_edge();
+                }
+                s.m.trigger_key_interrupt();
+                for _ in 0..400 {
+                    s.m.raw_mut().trigger_clock_edge();
+                }
+                settle(&mut s, spin);
+                let count = s.m.bus().memory()[CNT as usize];
+                let transparent = arch_view(&s) == reference;
+                out.emit("spec.c04pair", &format!("count_le_2={} transparent={}", (count <= 2) as u8, transparent as u8));
+                out.count("pair");
+            }
+        }
+    }
+}
